@@ -196,6 +196,24 @@ Theorem fused_is_pipe : forall (B : Type) (f : nat * str -> B) (d : nat * str) t
 Proof. exact fused_is_pipe_model. Qed.
 Print Assumptions fused_is_pipe.
 
+(** iter_err as the first scan writes it.  After the repair: in every reachable state it is empty or holds the
+    FIRST Err text — so the only error that can compete with the second scan's (an Err result for an earlier
+    text) is that one, which is what the correspondence accepts ([end_allowed]).  Before the repair it was the
+    Err text a worker ran into last: texts [Ok a; Err; Err], two workers, final iter_err = position 2 *)
+Theorem fused_err_is_first : forall (B : Type) (f : nat * str -> B) (d : nat * str) texts W tr s,
+  urun str B f d true (uinit str B texts W) tr = Some s ->
+  u_err str B s = None \/ (exists k, first_err_text 0 texts = Some k /\ u_err str B s = Some k).
+Proof. exact fused_err_is_first_model. Qed.
+Print Assumptions fused_err_is_first.
+
+Theorem unfused_records_later_err : forall (T B : Type) (f : nat * T -> B) (d : nat * T) (a : T),
+  exists s, urun T B f d false (uinit T B [Some a; None; None] 2) fused_schedule = Some s
+    /\ uterminal T B f d false s
+    /\ out (u_base T B s) = [f (0, a)]
+    /\ u_err T B s = Some 2.
+Proof. exact unfused_records_later_err_l. Qed.
+Print Assumptions unfused_records_later_err.
+
 (** the executable statement evaluated on every implementation output (every window of every delivered text
     exactly once with ids, tags and boundaries; no empty batch; limit; order and greediness without sort;
     accessors; end state) holds of the model's own output, for EVERY input value; the model agrees with itself
